@@ -998,7 +998,8 @@ def remap_by_types(
                     if t_node.attr.lower() == "zip":
                         return t_node
                     raise ValueError(f"Key {key} not found in dict expression!!")
-                value = t_node.value.values[key_index[0]]
+                # A later entry overrides an earlier one with the same key
+                value = t_node.value.values[key_index[-1]]
                 self._found_types[node] = self.lookup_type(value)
             elif ((dc := self.lookup_type(t_node.value)) is not None) and is_dataclass(dc):
                 dc_types = get_type_hints(dc)
